@@ -35,6 +35,11 @@ type doCall struct {
 	// OmitX: the answer leaves result "x" out although other results are supplied:
 	// the variable keeps the value it has
 	OmitX bool `json:"omitX,omitempty"`
+	// Overridden (kind err only): the option list first names a handler
+	// (DoWithErrHandle with another error; its channel delivers 1 = exit, 2 =
+	// retry twice, 3 = never anything) and THEN DoWithErr: options apply in
+	// order, the later one replaces the earlier - an error without a handler
+	Overridden int `json:"overridden,omitempty"`
 }
 
 // attempt is the history of Do calls for one request of the activity.
@@ -159,6 +164,10 @@ type planErr struct{}
 
 func (planErr) Error() string { return "planned failure" }
 
+type overriddenErr struct{}
+
+func (overriddenErr) Error() string { return "an earlier option, replaced by a later one" }
+
 func (c doCall) options() []bpmn.DoOption {
 	var opts []bpmn.DoOption
 	res := map[string]any{}
@@ -179,6 +188,16 @@ func (c doCall) options() []bpmn.DoOption {
 	}
 	switch c.Kind {
 	case "err":
+		if c.Overridden > 0 {
+			ch := make(chan bpmn.ErrHandler, 1)
+			switch c.Overridden {
+			case 1:
+				ch <- bpmn.ErrHandler{Mode: bpmn.ExitMode}
+			case 2:
+				ch <- bpmn.ErrHandler{Mode: bpmn.RetryMode, Retries: 2}
+			}
+			opts = append(opts, bpmn.DoWithErrHandle(overriddenErr{}, ch))
+		}
 		opts = append(opts, bpmn.DoWithErr(planErr{}))
 	default:
 		ch := make(chan bpmn.ErrHandler, 1)
@@ -579,7 +598,7 @@ func drawCall(rt *rapid.T, allowRetry bool) doCall {
 	return doCall{Kind: rapid.SampledFrom(kinds).Draw(rt, "kind"), Sel: int64(rapid.IntRange(1, 2).Draw(rt, "sel")), X: int64(rapid.IntRange(3, 9).Draw(rt, "x")),
 		Undeclared: rapid.Bool().Draw(rt, "undeclared"), Retries: rapid.IntRange(0, 3).Draw(rt, "retries"), Objects: rapid.Bool().Draw(rt, "objects"),
 		F:     rapid.SampledFrom([]float64{1.5, -0.25, 2.5e-7, 0.7500004, 1e21, 123456789.123456789, 5e-324, -3}).Draw(rt, "f"),
-		OmitX: rapid.IntRange(0, 3).Draw(rt, "omitX") == 0}
+		OmitX: rapid.IntRange(0, 3).Draw(rt, "omitX") == 0, Overridden: rapid.SampledFrom([]int{0, 0, 1, 2, 3}).Draw(rt, "overridden")}
 }
 
 func drawDescriptor(rt *rapid.T) descriptor {
